@@ -344,7 +344,9 @@ pub(crate) struct Dispatcher<T: Transport, E: UtpEnvironment> {
 
 impl<T: Transport, E: UtpEnvironment> Dispatcher<T, E> {
     pub(crate) async fn run_forever(mut self) -> crate::Result<()> {
-        let mut read_buf = [0u8; 16384];
+        // Must hold the largest possible UDP datagram: recv_from() silently truncates anything longer,
+        // and a truncated ST_DATA would be accepted and acknowledged with its tail missing.
+        let mut read_buf = vec![0u8; 65536];
 
         loop {
             if let Err(e) = self.run_once(&mut read_buf).await {
